@@ -90,6 +90,8 @@ class P:
             s = "%s *%s%s" % (self.base(), n, a(" +intent(inout)"))
         elif k == "string_out":
             s = "std::string &%s%s" % (n, a(" +intent(out)"))
+        elif k == "string_inout":
+            s = "std::string &%s%s" % (n, a(" +intent(inout)"))
         elif k == "ilist":
             s = "const int *%s%s" % (n, a(" +rank(1)"))
         elif k == "dlist":
@@ -194,6 +196,8 @@ def out_value(p, idx, inval=None, env=None):
         return (60 + idx, 0.25)
     if p.kind == "dvec_out":
         return [0.5, 1.5]
+    if p.kind == "string_inout":
+        return "<" + inval + ">"
     if p.intent == "inout":
         return inval + 1
     if b == "int":
@@ -292,6 +296,8 @@ def _body(f, language):
             lines.append("{ int i_; for (i_ = 0; i_ < %s; i_++) %s[i_] = 100 + i_; }" % (c_total(p.dims), p.name))
         elif p.kind == "ddim_out":
             lines.append("{ int i_; for (i_ = 0; i_ < %s; i_++) %s[i_] = i_ + 0.5; }" % (c_total(p.dims), p.name))
+        elif p.kind == "string_inout":
+            lines.append('%s = "<" + %s + ">";' % (p.name, p.name))
         elif p.intent == "inout":
             lines.append("*%s = *%s + 1;" % (p.name, p.name))
         elif p.intent == "out":
@@ -443,7 +449,7 @@ class PyLib:
 
 
 # ---------------------------------------------------------------------------- generation
-NO_DEFAULT_WITH = ("string_out", "dvec_out", "pt_out", "vec", "dvec", "ilist_inout", "idim_out", "ddim_out")
+NO_DEFAULT_WITH = ()
 
 EXTENT_FORMS = ["{a}", "{a}+1", "2", "{a}*2", "{a}+{b}", "({a}+1)", "3", "{b}"]
 
@@ -484,7 +490,7 @@ def rand_param(r, language, idx, cls=None, allow=("in", "out", "inout")):
     if "out" in allow:
         kinds += ["int_out", "double_out"] + (["string_out", "pt_out", "dvec_out"] if language != "c" else [])
     if "inout" in allow:
-        kinds += ["int_inout", "double_inout", "ilist_inout"]
+        kinds += ["int_inout", "double_inout", "ilist_inout"] + (["string_inout"] if language != "c" else [])
     k = r.choice(kinds)
     n = "a%d" % idx
     ps = [P(k, n, cls=cls if k == "cls" else None)]
@@ -549,6 +555,15 @@ def fixed_cxx(name):
                           P("string", "st")]),
         F("so", "void", [P("string_out", "s"), P("int_out", "n")]),
         F("so1", "void", [P("string_out", "s")]),
+        # every returned kind once as the only returned value (single-object path) and once inside a tuple
+        F("sio1", "void", [P("string_inout", "s")]),
+        F("sio2", "int", [P("string_inout", "s"), P("int", "k")]),
+        F("iio1", "void", [P("int_inout", "v")]),
+        F("dio1", "void", [P("int", "k"), P("double_inout", "v")]),
+        F("io1", "void", [P("int_out", "v")]),
+        F("do1", "void", [P("double_out", "v"), P("int", "k")]),
+        F("lio1", "void", [P("ilist_inout", "a"), P("implied", "n", of="a")]),
+        F("po1", "void", [P("int", "k"), P("pt_out", "p")]),
         F("fe", "int", [P("enum", "c"), P("long", "n", default=3)]),
         F("bb", "bool", [P("bool", "a"), P("bool", "b")]),
         F("rs", "string", [P("cstr", "s")]),
